@@ -211,7 +211,7 @@ def ranges_subset(obs, allowed):
 def check_c13(root, prop, tier, seed, res):
     import vbuiltin
     from vcheck import CARGO_TOML
-    shapes = "abd" if tier == "quick" else "abcd"
+    shapes = "abcd"   # all four shapes in both tiers (the forced "other" shape costs ~6 s)
     eng = GenericEngine(root, prop, tier, seed)
     eng.prepare()
     src = vbuiltin.gen_source(shapes, vbuiltin.table_sizes())
